@@ -54,6 +54,7 @@ type Prog struct {
 	// caches
 	e1    *e1Result
 	e3    *e3Result
+	e4    *e4Result
 	atoms map[*ssa.Function]*guardInfo
 	doms  map[*ssa.Function]*postDom
 }
